@@ -879,3 +879,27 @@ def c05_classify(case, impl, why):
         if re.search(r"HCIRCLE[^:]*,,", body):
             return "hoisted-call-captured-by-default-colour"
     return None
+
+
+# --------------------------------------------------------------------------- C04 (the parts judged on whole programs)
+
+def c04(case, impl):
+    out = out_text(impl)
+    if out is None or src_comment_closes_early(case["text"]):
+        return None
+    lines = program_lines(case, out)
+    src = "\n".join(src_blank(l) for l in re.split(r"[\r\n]+", case["text"]))
+    uses_hbuff = re.search(r"HBUFF", src) is not None
+    has_prologue = any(l.strip() == "dim pid: integer" for l in lines)
+    has_init = any(re.match(r"^RUN _ecb_init_hbuff\(pid\)$", l.strip()) for l in lines)
+    if flag(case, 0):
+        if uses_hbuff != has_prologue or uses_hbuff != has_init:
+            return f"buffer prologue present={has_prologue}/{has_init} but the program {'uses' if uses_hbuff else 'does not use'} HBUFF"
+    # the two speed pokes
+    for m in re.finditer(r"POKE *(65496|65497|&H *FFD8|&H *FFD9|65496\.0*|65497\.0*) *,", src):
+        addr = m.group(1).replace(" ", "")
+        fast = addr.startswith(("65497", "&HFFD9"))
+        want = f"play.octo := {1 if fast else 0}"
+        if not any(want in l for l in lines):
+            return f"POKE {addr} is not translated into `{want}`"
+    return None
